@@ -2,6 +2,7 @@
 phase tracing by wrapping module attributes (no source hooks), RNG control."""
 import contextlib
 import io
+import logging
 import random as pyrandom
 
 import numpy as np
@@ -201,6 +202,62 @@ def quiet():
         yield
 
 
+class _SinkHandler(logging.Handler):
+    """formats every record (so that the argument expressions and %-formatting of each logging call really run) and
+    throws the text away"""
+    def __init__(self):
+        super().__init__(level=logging.DEBUG)
+        self.records = 0
+
+    def emit(self, record):
+        record.getMessage()
+        self.records += 1
+
+
+@contextlib.contextmanager
+def debug_logging():
+    """the process-wide condition "somebody is listening at DEBUG level": the `fast_ticc` logger tree at DEBUG with a
+    handler that formats every record.  A property of the library holds whatever the logging configuration is, so
+    every diagnostic code path guarded by isEnabledFor / a verbose flag derived from it is inside the checked domain."""
+    lg = logging.getLogger("fast_ticc")
+    old_level, old_prop = lg.level, lg.propagate
+    h = _SinkHandler()
+    lg.addHandler(h)
+    lg.setLevel(logging.DEBUG)
+    lg.propagate = False
+    try:
+        yield h
+    finally:
+        lg.removeHandler(h)
+        lg.setLevel(old_level)
+        lg.propagate = old_prop
+
+
+def ambient(cfg):
+    """context for the ambient (non-argument) conditions a configuration asks for"""
+    stack = contextlib.ExitStack()
+    if cfg.get("logging") == "DEBUG":
+        stack.enter_context(debug_logging())
+    if cfg.get("mp"):
+        stack.enter_context(multiprocessing_enabled())
+    return stack
+
+
+@contextlib.contextmanager
+def multiprocessing_enabled():
+    """the library's documented switch for a real worker pool (CUPCAKE_ENABLE_MULTIPROCESSING non-empty)"""
+    import os
+    old = os.environ.get("CUPCAKE_ENABLE_MULTIPROCESSING")
+    os.environ["CUPCAKE_ENABLE_MULTIPROCESSING"] = "1"
+    try:
+        yield
+    finally:
+        if old is None:
+            os.environ.pop("CUPCAKE_ENABLE_MULTIPROCESSING", None)
+        else:
+            os.environ["CUPCAKE_ENABLE_MULTIPROCESSING"] = old
+
+
 def seed_all(seed):
     np.random.seed(seed % (2 ** 32))
     pyrandom.seed(seed)
@@ -329,7 +386,10 @@ class Trace:
             def kernel(label_assignment_cost=None, label_switching_cost=None, *a, **k):
                 table = np.array(label_assignment_cost, copy=True)
                 beta = label_switching_cost
-                beta_copy = np.array(beta, copy=True) if isinstance(beta, np.ndarray) else beta
+                if isinstance(beta, np.ndarray) and beta.ndim == 0:
+                    beta_copy = beta.item()          # a zero-dimensional array is a scalar
+                else:
+                    beta_copy = np.array(beta, copy=True) if isinstance(beta, np.ndarray) else beta
                 out = orig_k(label_assignment_cost=label_assignment_cost,
                              label_switching_cost=label_switching_cost, *a, **k)
                 tr.kernel_calls.append({"table": table, "beta": beta_copy,
@@ -443,6 +503,11 @@ def gen_config(rng, joint=None, small=True):
     r3 = pyrandom.Random(cfg["seed"] ^ 0xF1A7)
     if r3.random() < 0.07:
         cfg["flat"] = [r3.choice([0.0, 0.3, 0.5, 1.0]), r3.choice([12, 20, 30]), r3.choice([6.0, -5.0, 9.0])]   # a stuck stretch
+    r4 = pyrandom.Random(cfg["seed"] ^ 0xD1A6)
+    if r4.random() < 0.15:
+        cfg["logging"] = "DEBUG"                                       # somebody listens to the library's diagnostics
+    if r4.random() < 0.12:
+        cfg["beta_form"] = r4.choice(["0d", "0d", "f32", "f64", "i64"])  # the scalar switching cost as a NumPy object
     return cfg
 
 
@@ -457,6 +522,25 @@ def flat_config(rng, joint=False):
     for k in ("dtype", "completion"):
         cfg.pop(k, None)
     return cfg
+
+
+def degenerate_configs(rng, count):
+    """complete runs whose cluster covariances are exactly singular or rank deficient - two sensors reporting the same
+    signal - with a light penalty, so that a cluster's solve typically exhausts its iteration budget instead of
+    stopping by the rule (the return path after the last sweep), half of them with DEBUG logging on."""
+    out = []
+    for i in range(count):
+        cfg = gen_config(rng, joint=False)
+        cfg.update({"N": rng.choice([2, 2, 3]), "W": rng.choice([1, 2, 2]), "K": 2, "regimes": 2, "limit": rng.choice([2, 4]),
+                    "lam": rng.choice([0.01, 0.0, 0.005]), "beta": 5.0, "eps": 0, "m": 10, "duplicate_sensor": True,
+                    "scale": 1.0})
+        cfg["lens"] = [cfg["W"] - 1 + rng.randint(140, 170)]
+        for k in ("dtype", "completion", "flat", "logging"):
+            cfg.pop(k, None)
+        if i % 2 == 0:
+            cfg["logging"] = "DEBUG"
+        out.append(cfg)
+    return out
 
 
 def high_dimensional_configs(rng, scales):
@@ -497,6 +581,13 @@ def config_data(cfg):
             a = int(frac * max(0, s_.shape[0] - length))
             if s_.shape[0] >= length + 2 * cfg["W"]:
                 s_[a:a + length, :] = level * cfg.get("scale", 1.0)
+    if cfg.get("sensor_scales"):
+        # sensors on very different scales (unnormalised units): column j multiplied by sensor_scales[j]
+        sc_ = np.asarray(cfg["sensor_scales"], dtype=float)[:cfg["N"]]
+        series = [s_ * sc_ for s_ in series]
+    if cfg.get("duplicate_sensor") and cfg["N"] >= 2:
+        for s_ in series:
+            s_[:, -1] = s_[:, 0]
     if cfg.get("data_factor"):
         series = [s_ * cfg["data_factor"] for s_ in series]
     shift = cfg.get("shift")
@@ -513,11 +604,29 @@ def config_data(cfg):
     return series
 
 
+def scalar_form(value, form):
+    """the same number handed over as another kind of scalar object (a zero-dimensional array is what np.asarray,
+    a reduction with keepdims=False or an indexing with an empty tuple hand a caller)"""
+    if form is None or isinstance(value, np.ndarray) or float(value) != float(np.float32(value)):
+        return value
+    if form == "0d":
+        return np.array(float(value))
+    if form == "f32":
+        return np.float32(value)
+    if form == "f64":
+        return np.float64(value)
+    if form == "i64":
+        return np.int64(int(value)) if float(value) == int(value) else np.float64(value)
+    return value
+
+
 def config_kwargs(cfg):
+    if cfg.get("beta_form"):
+        cfg = dict(cfg, beta=scalar_form(cfg["beta"], cfg["beta_form"]))
     return dict(window_size=cfg["W"], num_clusters=cfg["K"], sparsity_weight=cfg["lam"],
                 label_switching_cost=cfg["beta"], iteration_limit=cfg["limit"],
                 min_meaningful_covariance=cfg.get("eps", 0), min_cluster_size=cfg["m"],
-                biased_covariance=cfg["biased"], num_processors=1)
+                biased_covariance=cfg["biased"], num_processors=cfg.get("nproc", 1))
 
 
 def forced_labelling(cfg, npts):
@@ -563,6 +672,7 @@ def execute(cfg, trace=True, **trace_kw):
         timer.start()
     if cfg.get("completion") is not None:
         stack.enter_context(completion_order(cfg["completion"]))
+    stack.enter_context(ambient(cfg))
     with stack, warnings.catch_warnings():
         warnings.simplefilter("ignore")
         try:
@@ -592,7 +702,7 @@ import ticc_util as tu, fast_ticc
 cfg = json.loads(sys.argv[3])
 series = tu.config_data(cfg)
 tu.seed_all(cfg["seed"])
-with tu.quiet():
+with tu.quiet(), tu.ambient(cfg):
     r = fast_ticc.ticc_joint_labels(series, **tu.config_kwargs(cfg)) if cfg["joint"] else fast_ticc.ticc_labels(series[0], **tu.config_kwargs(cfg))
 print("DIGEST " + tu.digest(r))
 """
